@@ -1,11 +1,21 @@
 /- Helper lemmas for C13 (built-in format checkers): digits, `splitOn`, octets, dates, IPv6. -/
 import JS.Format
 import JS.Spec.Formats
+import JS.Generated.Tables
 import Mathlib.Tactic.IntervalCases
 import Mathlib.Data.List.Induction
 
 namespace JS.Fmt
 open JS
+
+/-- `FmtRes` has decidable equality (used by the `decide +kernel` sanity tests) -/
+instance decEqFmtRes : DecidableEq FmtRes
+  | .ret a, .ret b =>
+    if h : a = b then isTrue (by rw [h]) else isFalse (by intro e; cases e; exact h rfl)
+  | .raise a, .raise b =>
+    if h : a = b then isTrue (by rw [h]) else isFalse (by intro e; cases e; exact h rfl)
+  | .ret _, .raise _ => isFalse (by intro e; cases e)
+  | .raise _, .ret _ => isFalse (by intro e; cases e)
 
 /-! ### (a) ASCII digits and decimal renderings -/
 
@@ -311,6 +321,18 @@ theorem ipv4Parse_iff (s : Str) (l : List Nat) :
     exact ⟨a, b, c, d, (parseOctet_iff _ _).mpr ⟨ha, rfl⟩, (parseOctet_iff _ _).mpr ⟨hb, rfl⟩,
       (parseOctet_iff _ _).mpr ⟨hc, rfl⟩, (parseOctet_iff _ _).mpr ⟨hd, rfl⟩, rfl⟩
 
+theorem fmtIpv4_iff (s : Str) : fmtIpv4 (.str s) = .ret true ↔ Spec.isIpv4Text s := by
+  simp only [fmtIpv4]
+  constructor
+  · intro h
+    cases hp : ipv4Parse s with
+    | none => rw [hp] at h; cases h
+    | some l =>
+      obtain ⟨a, b, c, d, ha, hb, hc, hd, _, hs⟩ := (ipv4Parse_iff s l).mp hp
+      exact ⟨a, b, c, d, ha, hb, hc, hd, hs⟩
+  · rintro ⟨a, b, c, d, ha, hb, hc, hd, hs⟩
+    rw [(ipv4Parse_iff s [a, b, c, d]).mpr ⟨a, b, c, d, ha, hb, hc, hd, rfl, hs⟩]
+
 /-! ### (d) dates -/
 
 theorem digitsVal_replicate_zero (k : Nat) (q : Str) :
@@ -449,5 +471,98 @@ theorem fmtDate_iff (s : Str) : fmtDate (.str s) = .ret true ↔ fullDateFrom1 s
     have hdm : d ≤ pyDaysInMonth y m := by rw [pyDaysInMonth_eq _ _ hm1 hm2]; exact hd2
     simp only [List.cons_append, List.nil_append, fmtDate, vy, vm, vd]
     simp [ay, am, ad, hy1, hm1, hm2, hd1, hdm]
+
+/-! ### (e) result shapes, non-strings, `FormatChecker.check` -/
+
+/-- the exception class a modelled format function is registered with (`raises=` in `_format.py`) -/
+def listedRaises : FmtFn → Option String
+  | .ipv4 => some "AddressValueError"
+  | .ipv6 => some "AddressValueError"
+  | .date => some "ValueError"
+  | .email => none
+  | .oracle => none
+
+theorem fmtIpv4_cases (s : Str) :
+    fmtIpv4 (.str s) = .ret true ∨ fmtIpv4 (.str s) = .raise addrValueErrorMro := by
+  simp only [fmtIpv4]
+  cases ipv4Parse s <;> simp
+
+theorem fmtIpv6_cases (s : Str) :
+    (∃ b, fmtIpv6 (.str s) = .ret b) ∨ fmtIpv6 (.str s) = .raise addrValueErrorMro := by
+  simp only [fmtIpv6]
+  cases ipv6Address s <;> simp
+
+theorem fmtDate_cases (s : Str) :
+    (∃ b, fmtDate (.str s) = .ret b) ∨ fmtDate (.str s) = .raise valueErrorMro := by
+  simp only [fmtDate]
+  split
+  · split
+    · split <;> simp
+    · simp
+  · simp
+
+theorem builtin_result (f : FmtFn) (j : Json) (r : FmtRes) (hr : builtinImpl.run f j = some r) :
+    (∃ b, r = .ret b) ∨ ∃ c mro, listedRaises f = some c ∧ r = .raise mro ∧ c ∈ mro := by
+  cases j with
+  | str s =>
+    cases f with
+    | email => simp only [builtinImpl, Option.some.injEq] at hr; subst hr; exact .inl ⟨_, rfl⟩
+    | ipv4 =>
+      simp only [builtinImpl, Option.some.injEq] at hr; subst hr
+      rcases fmtIpv4_cases s with h | h
+      · exact .inl ⟨_, h⟩
+      · exact .inr ⟨_, _, rfl, h, by decide⟩
+    | ipv6 =>
+      simp only [builtinImpl, Option.some.injEq] at hr; subst hr
+      rcases fmtIpv6_cases s with ⟨b, h⟩ | h
+      · exact .inl ⟨_, h⟩
+      · exact .inr ⟨_, _, rfl, h, by decide⟩
+    | date =>
+      simp only [builtinImpl, Option.some.injEq] at hr; subst hr
+      rcases fmtDate_cases s with ⟨b, h⟩ | h
+      · exact .inl ⟨_, h⟩
+      · exact .inr ⟨_, _, rfl, h, by decide⟩
+    | oracle => simp [builtinImpl] at hr
+  | _ =>
+    left
+    cases f <;> simp only [builtinImpl, Option.some.injEq, reduceCtorEq] at hr <;> subst hr <;>
+      exact ⟨_, rfl⟩
+
+theorem builtin_nonstring (f : FmtFn) (j : Json) (h : j.isStr = false) (r : FmtRes)
+    (hr : builtinImpl.run f j = some r) : r = .ret true := by
+  cases j with
+  | str s => simp [Json.isStr] at h
+  | _ =>
+    cases f <;> simp only [builtinImpl, Option.some.injEq, reduceCtorEq] at hr <;> subst hr <;> rfl
+
+/-- every registration of a modelled function in the generated tables lists its exception class -/
+def entryOk (e : FmtEntry) : Bool :=
+  match listedRaises e.fn with
+  | some c => e.raises.contains c
+  | none => true
+
+def builtinTables : List FormatChecker :=
+  [Generated.d3Formats, Generated.d4Formats, Generated.d6Formats, Generated.d7Formats,
+    Generated.classFormats]
+
+theorem tables_entryOk : ∀ fc ∈ builtinTables, fc.checkers.all entryOk = true := by decide
+
+theorem fmtCheck_ok (env : Env) (fc : FormatChecker) (hfc : fc.checkers.all entryOk = true)
+    (inst : Json) (name : Str) (e : FmtEntry) (he : fc.find name = some e) (hm : e.fn ≠ .oracle) :
+    ∃ r, fmtCheck env builtinImpl fc inst name = .ok r := by
+  have hmem : e ∈ fc.checkers := List.mem_of_find?_eq_some he
+  have hok := List.all_eq_true.mp hfc e hmem
+  obtain ⟨r, hr⟩ : ∃ r, builtinImpl.run e.fn inst = some r := by
+    cases hf : e.fn <;> simp_all [builtinImpl]
+  unfold fmtCheck
+  rw [he]
+  simp only [runFmt, hr]
+  rcases builtin_result e.fn inst r hr with ⟨b, rfl⟩ | ⟨c, mro, hc, rfl, hin⟩
+  · exact ⟨_, rfl⟩
+  · simp only [entryOk, hc] at hok
+    have : mro.any (fun c => e.raises.contains c) = true :=
+      List.any_eq_true.mpr ⟨c, hin, hok⟩
+    simp only [this, if_true]
+    exact ⟨_, rfl⟩
 
 end JS.Fmt
